@@ -732,7 +732,7 @@ func c04SelfTest(t *testing.T) {
 
 func TestVerifC04Forest(t *testing.T) {
 	c04SelfTest(t)
-	vlib.Drive(t, vlib.Spec[c04Case]{ID: "C04", Quick: 40000, Gen: c04Gen, Run: c04Run})
+	vlib.Drive(t, vlib.Spec[c04Case]{ID: "C04", Quick: 80000, Gen: c04Gen, Run: c04Run})
 }
 
 // ---------------------------------------------------------------------------
@@ -1029,7 +1029,7 @@ func c04APIGen(t *rapid.T) c04APICase {
 
 func TestVerifC04Issued(t *testing.T) {
 	c04SelfTest(t)
-	vlib.Drive(t, vlib.Spec[c04APICase]{ID: "C04", Quick: 12000, Gen: c04APIGen, Run: c04APIRun})
+	vlib.Drive(t, vlib.Spec[c04APICase]{ID: "C04", Quick: 20000, Gen: c04APIGen, Run: c04APIRun})
 }
 
 // ---------------------------------------------------------------------------
@@ -1265,7 +1265,7 @@ func TestVerifC04BitFlips(t *testing.T) {
 	}
 	c04SelfTest(t)
 	rec := vlib.Open(t, "C04")
-	chains := c04Chains(2)
+	chains := c04Chains(4)
 	idx := 0
 	bits := 0
 	for ch := 0; ch < chains; ch++ {
@@ -1349,8 +1349,8 @@ func c04SubstCases(chain int) []c04Case {
 		for _, p := range pres {
 			for _, n := range []int{c04NameNone, reqName} {
 				st = append(st, c04Step{Op: c04OpVerifyLeaf, A: leaf, B: p, Own: true, Name: n, Sec: c04T0})
-				if n == c04NameNone {
-					break
+				if reqName == c04NameNone {
+					break // this chain's leaf has no name: one query is enough
 				}
 			}
 		}
@@ -1416,7 +1416,7 @@ func TestVerifC04Substitutions(t *testing.T) {
 	}
 	c04SelfTest(t)
 	rec := vlib.Open(t, "C04")
-	chains := c04Chains(2)
+	chains := c04Chains(4)
 	idx := 0
 	for ch := 0; ch < chains; ch++ {
 		for _, c := range c04SubstCases(ch) {
